@@ -982,26 +982,24 @@ where
 
     fn next(&mut self) -> Option<Self::Item> {
         // Replace maybe_next in iterator with its tail and return head
-        match self.maybe_next.take().map(|x| x.as_mut()) {
-            Some(LTermInner::Cons(head, tail)) => {
-                if tail.is_empty() {
-                    // The iterator has finished the list after this one
-                    self.maybe_next = None;
-                } else {
+        let term = self.maybe_next.take()?;
+        if term.is_empty() {
+            return None;
+        }
+        if !term.is_non_empty_list() {
+            // If the list is improper, it ends in non-cons term, which is the last element.
+            return Some(term);
+        }
+        match term.as_mut() {
+            LTermInner::Cons(head, tail) => {
+                if !tail.is_empty() {
+                    // Otherwise the iterator has finished the list after this one
                     let _ = self.maybe_next.replace(tail);
                 }
 
                 Some(head)
             }
-            Some(LTermInner::Empty) => {
-                self.maybe_next = None;
-                None
-            }
-            Some(_) => {
-                // If the list is improper, it ends in non-cons term.
-                self.maybe_next.take()
-            }
-            _ => None, // Iterator is finished
+            _ => unreachable!(),
         }
     }
 }
